@@ -314,8 +314,8 @@ type C15Solver struct {
 }
 
 func GenC15Solver() *rapid.Generator[C15Solver] {
-	cyc := genNet(NetCfg{Cyclic: true, Rename: true})
-	dag := genNet(NetCfg{Rename: true})
+	cyc := genNet(NetCfg{Cyclic: true, Rename: true, BigRecurrent: true})
+	dag := genNet(NetCfg{Rename: true, Wide: true})
 	mod := genGenomeSpec(GenomeCfg{Modules: true, MinGenes: 1, SingleOutMod: true, ModestWeight: true})
 	return rapid.Custom(func(t *rapid.T) C15Solver {
 		var c C15Solver
